@@ -3,6 +3,7 @@
     Axioms: only the classical axioms of the standard library's real numbers (listed by
     Print Assumptions in props/Properties_C09.v, Properties_C19.v). *)
 Require Import Reals Bool List Arith Lra Lia Psatz.
+From Coquelicot Require Import Complex.
 From PV Require Import Outcome Thermal ThermalSpec.
 Import ListNotations.
 Local Open Scope R_scope.
@@ -604,6 +605,91 @@ Proof. unfold dm_sum_parts. rewrite (fold_left_lsum (fun hd => f (fst hd) (snd h
 Lemma in_combine_H {A B} (l1 : list A) (l2 : list B) (p : A * B) : In p (combine l1 l2) -> In (fst p) l1 /\ In (snd p) l2.
 Proof. destruct p as [a b]. intros Hp. split; [eapply in_combine_l|eapply in_combine_r]; exact Hp. Qed.
 
+Lemma lsum_combine_snd {A B} (f : B -> R) (l1 : list A) (l2 : list B) :
+  length l1 = length l2 -> lsum (fun p => f (snd p)) (combine l1 l2) = lsum f l2.
+Proof.
+  revert l2. induction l1 as [|a t IH]; intros [|b l2] L; try discriminate L; [reflexivity|].
+  cbn [combine lsum snd]. rewrite IH; [reflexivity|]. cbn in L. lia.
+Qed.
+
+(** a sum over paired blocks as a sum over block numbers *)
+Lemma lsum_combine_nth {A B} (da : A) (db : B) (f : A -> B -> R) (l1 : list A) (l2 : list B) :
+  length l1 = length l2 ->
+  lsum (fun p => f (fst p) (snd p)) (combine l1 l2) = lsum (fun b => f (nth b l1 da) (nth b l2 db)) (seq 0 (length l1)).
+Proof.
+  revert l2. induction l1 as [|a t IH]; intros [|b l2] L; try discriminate L; [reflexivity|].
+  cbn [combine lsum fst snd length seq nth]. f_equal. rewrite <- seq_shift, lsum_map. cbn [nth].
+  apply IH. cbn in L. lia.
+Qed.
+
+Lemma lsum_filter {A} (f : A -> R) (p : A -> bool) (l : list A) :
+  lsum f (filter p l) = lsum (fun a => if p a then f a else 0) l.
+Proof.
+  induction l as [|a t IH]; [reflexivity|]. cbn [filter lsum]. destruct (p a); cbn [lsum]; rewrite IH; lra.
+Qed.
+
+Lemma NoDup_map_filter {A B} (f : A -> B) (p : A -> bool) (l : list A) :
+  NoDup (map f l) -> NoDup (map f (filter p l)).
+Proof.
+  induction l as [|a t IH]; intros ND; [constructor|]. cbn [map] in ND. inversion ND as [|x xs Hn NDt]; subst.
+  cbn [filter]. destruct (p a); [|apply IH; exact NDt]. cbn [map]. constructor; [|apply IH; exact NDt].
+  intros Hin. apply Hn. apply in_map_iff in Hin. destruct Hin as [b [E Hb]]. apply filter_In in Hb.
+  apply in_map_iff. exists b. split; [exact E|apply Hb].
+Qed.
+
+Lemma find_nodup_key {A} (key : A -> nat) (l : list A) (p : A) :
+  NoDup (map key l) -> In p l -> find (fun q => Nat.eqb (key q) (key p)) l = Some p.
+Proof.
+  induction l as [|a t IH]; intros ND Hp; [destruct Hp|]. cbn [map] in ND. inversion ND as [|x xs Hn NDt]; subst.
+  cbn [find]. destruct Hp as [->|Hp]; [rewrite Nat.eqb_refl; reflexivity|].
+  destruct (Nat.eqb (key a) (key p)) eqn:E; [|apply IH; assumption].
+  apply Nat.eqb_eq in E. exfalso. apply Hn. rewrite E. apply in_map. exact Hp.
+Qed.
+
+Lemma Rea_compute_sum (p : Roppart) (dp : Rdmpart) :
+  Rea_compute p dp = lsum (fun i => coeff R 0 (op_mat R p) i i * nth i (dp_weights R dp) 0) (seq 0 (length (op_mat R p))).
+Proof.
+  unfold Rea_compute, ea_compute.
+  rewrite (fold_left_lsum (fun i => coeff R 0 (op_mat R p) i i * nth i (dp_weights R dp) 0)). lra.
+Qed.
+
+(** what one diagonal, retained part contributes *)
+Definition ea_term (D0 : list Rdmpart) (p : Roppart) : R :=
+  if Nat.eqb (op_left R p) (op_right R p) && Ris_retained D0 (op_left R p)
+  then Rea_compute p (nth (op_left R p) D0 dummy_dp) else 0.
+
+(** closed form of EnsembleAverage::prepare: the sum over the diagonal parts whose block is retained *)
+Lemma ea_prepare_sum (A : fieldop R) (D0 : list Rdmpart) :
+  NoDup (map (op_left R) A) ->
+  (forall p, In p A -> op_left R p = op_right R p -> (op_left R p < length D0)%nat) ->
+  Rea_prepare A D0 = Done (lsum (ea_term D0) A).
+Proof.
+  intros ND Hb. unfold Rea_prepare, ea_prepare.
+  assert (G : forall l r, incl l A ->
+     fold_left (fun acc p => bind acc (fun r =>
+        if Nat.eqb (op_left R p) (op_right R p) then
+          if is_retained R D0 (op_left R p) then
+            match get_part_from_left R A (op_left R p), nth_error D0 (op_left R p) with
+            | Some Apart, Some dp => Done (r + ea_compute R 0 Rplus Rmult Apart dp)
+            | _, _ => OOB
+            end
+          else Done r
+        else Done r)) l (Done r) = Done (r + lsum (ea_term D0) l)).
+  { induction l as [|p t IH]; intros r Hl; cbn [fold_left lsum]; [f_equal; lra|].
+    assert (Hp : In p A) by (apply Hl; left; reflexivity).
+    assert (Ht : incl t A) by (intros q Hq; apply Hl; right; exact Hq).
+    cbn [bind]. unfold ea_term at 1. fold (Ris_retained D0 (op_left R p)).
+    destruct (Nat.eqb (op_left R p) (op_right R p)) eqn:Ed; cbn [andb].
+    - destruct (Ris_retained D0 (op_left R p)) eqn:Er.
+      + unfold get_part_from_left. rewrite (find_nodup_key (op_left R) A p ND Hp).
+        apply Nat.eqb_eq in Ed. specialize (Hb p Hp Ed).
+        destruct (nth_error D0 (op_left R p)) as [dp|] eqn:En; [|apply nth_error_None in En; lia].
+        rewrite (nth_error_nth _ _ dummy_dp En). rewrite (IH _ Ht). f_equal. unfold Rea_compute. lra.
+      + rewrite (IH _ Ht). f_equal. lra.
+    - rewrite (IH _ Ht). f_equal. lra. }
+  rewrite (G A 0 (incl_refl A)). f_equal. lra.
+Qed.
+
 Section Traces.
 Variable fock : list nat.
 Variable H : list Rhpart.
@@ -756,4 +842,445 @@ Proof.
     rewrite lsum_scal, (Heig hp s f Hhp Ls Hf). ring.
 Qed.
 
+
+Hypothesis parts_paired : length D = length H.                             (* one density-matrix part per block *)
+Hypothesis weights_sized : forall hd, In hd (combine H D) -> length (dp_weights R (snd hd)) = hp_size R (fst hd).
+
+(** Tr rho = total weight (= 1 by weights_sum_one), given normalised eigenvectors *)
+Theorem trace_rho_is_total_weight :
+  (forall hp s, In hp H -> (s < hp_size R hp)%nat -> lsum (fun f => comp hp s f * comp hp s f) fock = 1) ->
+  trace_rho_op fock H D (diag_op (fun _ => 1)) = total_weight D.
+Proof.
+  intros Hnorm. rewrite trace_eigen_form. unfold sum_states, total_weight.
+  rewrite <- (lsum_combine_snd (fun dp => lsum (fun w => w) (dp_weights R dp)) H D) by (symmetry; exact parts_paired).
+  apply lsum_ext. intros [hp dp] Hhd. cbn [fst snd]. destruct (in_combine_H _ _ _ Hhd) as [Hhp _]. cbn [fst] in Hhp.
+  rewrite <- (lsum_enum_snd (fun w => w)). apply lsum_ext. intros [s w] Hsw. cbn [fst snd].
+  destruct (in_enum _ _ _ Hsw) as [Ls _]. pose proof (weights_sized (hp, dp) Hhd) as Hsz. cbn [fst snd] in Hsz. rewrite Hsz in Ls.
+  rewrite (expect_diag (fun _ => 1) hp s Hhp).
+  rewrite <- (lsum_fock_comp hp s (fun f v => 1 * (v * v)) Hhp) by (intros; ring).
+  rewrite (lsum_ext _ (fun f => comp hp s f * comp hp s f)) by (intros; ring).
+  rewrite (Hnorm hp s Hhp Ls). ring.
+Qed.
+
+(** ** Ensemble average of an operator given block-wise in the eigenbasis (EnsembleAverage) *)
+
+(** Ensemble average of an operator O = Tr(rho O) on the full Fock space, when nothing is truncated.
+    Hypotheses about the operator data (they are the results of C10 and C07 for the QuadraticOperator):
+    - [rotated]: the stored diagonal element n of the diagonal part on block b is <b,n|O|b,n>;
+    - [bimap_complete]: a block without a diagonal part has vanishing diagonal elements of O
+      (only diagonal blocks can contribute to the trace). *)
+Theorem ensemble_average_is_trace (A : fieldop R) (O : nat -> nat -> R) :
+  NoDup (map (op_left R) A) ->
+  (* parts_in_range *) (forall p, In p A -> (op_left R p < length H)%nat) ->
+  (* rotated *)
+  (forall p, In p A -> op_left R p = op_right R p ->
+     length (op_mat R p) = hp_size R (nth (op_left R p) H dummy_hp) /\
+     forall n, (n < hp_size R (nth (op_left R p) H dummy_hp))%nat ->
+       coeff R 0 (op_mat R p) n n = expect fock O (nth (op_left R p) H dummy_hp) n) ->
+  (* bimap_complete *)
+  (forall b, (b < length H)%nat -> (forall p, In p A -> op_left R p = op_right R p -> op_left R p <> b) ->
+     forall s, (s < hp_size R (nth b H dummy_hp))%nat -> expect fock O (nth b H dummy_hp) s = 0) ->
+  (* nothing truncated *) (forall b, (b < length D)%nat -> Ris_retained D b = true) ->
+  Rea_prepare A D = Done (trace_rho_op fock H D O).
+Proof.
+  intros ND Hrange Hrot Hcompl Hret.
+  rewrite ea_prepare_sum; [|exact ND|intros p Hp _; rewrite parts_paired; apply Hrange; exact Hp]. f_equal.
+  rewrite trace_eigen_form. unfold sum_states.
+  set (T := fun (hp : Rhpart) (dp : Rdmpart) => lsum (fun sw => snd sw * expect fock O hp (fst sw)) (enum (dp_weights R dp))).
+  change (lsum (ea_term D) A = lsum (fun hd => T (fst hd) (snd hd)) (combine H D)).
+  rewrite (lsum_combine_nth dummy_hp dummy_dp T H D) by (symmetry; exact parts_paired).
+  set (diag := fun p : Roppart => Nat.eqb (op_left R p) (op_right R p)).
+  (* sizes of the weight vectors *)
+  assert (Wsz : forall b, (b < length H)%nat -> length (dp_weights R (nth b D dummy_dp)) = hp_size R (nth b H dummy_hp)).
+  { intros b Lb. apply (weights_sized (nth b H dummy_hp, nth b D dummy_dp)).
+    rewrite <- combine_nth by (symmetry; exact parts_paired). apply nth_In. rewrite combine_length, parts_paired. lia. }
+  (* only blocks with a diagonal part contribute *)
+  rewrite (lsum_restrict _ (seq 0 (length H)) (map (op_left R) (filter diag A))).
+  - rewrite lsum_map, lsum_filter. apply lsum_ext. intros p Hp. unfold ea_term. fold (diag p).
+    destruct (diag p) eqn:Ed; cbn [andb]; [|reflexivity].
+    assert (Edd : op_left R p = op_right R p) by (apply Nat.eqb_eq; exact Ed).
+    pose proof (Hrange p Hp) as Lb. rewrite Hret by (rewrite parts_paired; exact Lb).
+    destruct (Hrot p Hp Edd) as [Lm Hc]. rewrite Rea_compute_sum, Lm. unfold T.
+    rewrite (lsum_enum_nth 0), (Wsz _ Lb). apply lsum_ext. intros n Hn. apply in_seq in Hn. cbn [fst snd].
+    rewrite Hc by lia. ring.
+  - apply seq_NoDup.
+  - apply NoDup_map_filter. exact ND.
+  - intros b Hb. apply in_map_iff in Hb. destruct Hb as [p [<- Hp]]. apply filter_In in Hp. apply in_seq.
+    pose proof (Hrange p (proj1 Hp)). lia.
+  - intros b Hb Hnb. apply in_seq in Hb. unfold T. apply lsum_zero. intros [s w] Hsw. cbn [fst snd].
+    destruct (in_enum _ _ _ Hsw) as [Ls _]. rewrite (Wsz b) in Ls by lia.
+    rewrite Hcompl; [ring|lia| |exact Ls].
+    intros p Hp Edd E. apply Hnb. apply in_map_iff. exists p. split; [exact E|]. apply filter_In. split; [exact Hp|].
+    unfold diag. apply Nat.eqb_eq. exact Edd.
+Qed.
+
 End Traces.
+
+Lemma in_combine_map {A B} (f : A -> B) (l : list A) (a : A) (b : B) :
+  In (a, b) (combine l (map f l)) -> b = f a.
+Proof.
+  induction l as [|x t IH]; intros Hin; [destruct Hin|]. cbn [map combine] in Hin.
+  destruct Hin as [E|Hin]; [inversion E; reflexivity|apply IH; exact Hin].
+Qed.
+
+(** the size hypotheses of Section Traces hold for the output of DensityMatrix::compute, before and after truncation *)
+Lemma dm_compute_sizes (beta : R) (H : list Rhpart) (D : list Rdmpart) :
+  Rdm_compute beta H = Done D ->
+  length D = length H /\
+  forall hd, In hd (combine H D) -> length (dp_weights R (snd hd)) = hp_size R (fst hd).
+Proof.
+  intros E. destruct (dm_compute_Done_inv beta H D E) as [g [_ ->]]. split; [apply map_length|].
+  intros [hp dp] Hhd. cbn [fst snd]. rewrite (in_combine_map _ _ _ _ Hhd). cbn [gibbs_part dp_weights].
+  apply map_length.
+Qed.
+
+Lemma dm_truncate_sizes (eps : R) (H : list Rhpart) (D : list Rdmpart) :
+  (length D = length H /\ forall hd, In hd (combine H D) -> length (dp_weights R (snd hd)) = hp_size R (fst hd)) ->
+  length (Rdm_truncate eps D) = length H /\
+  forall hd, In hd (combine H (Rdm_truncate eps D)) -> length (dp_weights R (snd hd)) = hp_size R (fst hd).
+Proof.
+  intros [L S]. unfold Rdm_truncate, dm_truncate. split; [rewrite map_length; exact L|].
+  intros [hp dp] Hhd. cbn [fst snd]. revert D L S Hhd. induction H as [|hp0 t IH]; intros D L S Hhd; [destruct Hhd|].
+  destruct D as [|dp0 D]; [discriminate L|]. cbn [map combine] in Hhd. destruct Hhd as [E|Hhd].
+  - inversion E; subst. cbn [truncate dp_weights]. apply (S (hp, dp0)). left. reflexivity.
+  - apply (IH D); [cbn in L; lia| |exact Hhd]. intros hd Hin. apply S. right. exact Hin.
+Qed.
+
+(** * 5. Block truncation (C19) *)
+
+(** truncation changes nothing but the flag *)
+Lemma truncate_weights (eps : R) (dp : Rdmpart) :
+  dp_weights R (Rtruncate eps dp) = dp_weights R dp /\ dp_zpart R (Rtruncate eps dp) = dp_zpart R dp.
+Proof. split; reflexivity. Qed.
+
+(** A block is discarded iff none of its states has weight above eps; retained iff some state has. *)
+Theorem truncate_flag (eps : R) (dp : Rdmpart) :
+  (dp_retained R (Rtruncate eps dp) = false <-> forall w, In w (dp_weights R dp) -> w <= eps) /\
+  (dp_retained R (Rtruncate eps dp) = true <-> exists w, In w (dp_weights R dp) /\ eps < w).
+Proof.
+  unfold Rtruncate, truncate. cbn [dp_retained]. split.
+  - split.
+    + intros E w Hw. destruct (Rle_dec w eps) as [L|N]; [exact L|]. exfalso.
+      assert (existsb (fun w0 => Rltb eps w0) (dp_weights R dp) = true); [|congruence].
+      apply existsb_exists. exists w. split; [exact Hw|]. apply Rltb_true. lra.
+    + intros A. destruct (existsb (fun w => Rltb eps w) (dp_weights R dp)) eqn:E; [|reflexivity].
+      apply existsb_exists in E. destruct E as [w [Hw Lw]]. apply Rltb_true in Lw. specialize (A w Hw). lra.
+  - rewrite existsb_exists. split.
+    + intros [w [Hw Lw]]. exists w. split; [exact Hw|]. apply Rltb_true. exact Lw.
+    + intros [w [Hw Lw]]. exists w. split; [exact Hw|]. apply Rltb_true. exact Lw.
+Qed.
+
+(** the flag of block b after DensityMatrix::truncateBlocks *)
+Lemma is_retained_truncate (eps : R) (D : list Rdmpart) (b : nat) :
+  (b < length D)%nat -> Ris_retained (Rdm_truncate eps D) b = dp_retained R (Rtruncate eps (nth b D dummy_dp)).
+Proof.
+  intros Lb. unfold Ris_retained, is_retained, Rdm_truncate, dm_truncate. rewrite map_map.
+  rewrite (nth_indep _ false ((fun dp => dp_retained R (truncate R Rltb eps dp)) dummy_dp)) by (rewrite map_length; exact Lb).
+  rewrite (map_nth (fun dp => dp_retained R (truncate R Rltb eps dp))). reflexivity.
+Qed.
+
+(** a discarded block has only weights <= eps *)
+Corollary discarded_weights_small (eps : R) (D : list Rdmpart) (b : nat) :
+  (b < length D)%nat -> Ris_retained (Rdm_truncate eps D) b = false ->
+  forall w, In w (dp_weights R (nth b D dummy_dp)) -> w <= eps.
+Proof.
+  intros Lb E. rewrite (is_retained_truncate eps D b Lb) in E. apply (proj1 (truncate_flag eps _)). exact E.
+Qed.
+
+(** eps = 0 keeps every block that has a positive weight *)
+Theorem truncate_zero_keeps_positive (dp : Rdmpart) :
+  (exists w, In w (dp_weights R dp) /\ 0 < w) -> dp_retained R (Rtruncate 0 dp) = true.
+Proof. intros E. apply (proj2 (truncate_flag 0 dp)). exact E. Qed.
+
+(** a block discarded at eps = 0 (weights are non-negative) has all weights exactly 0 and contributes exactly 0
+    to an ensemble average; the Lehmann weight factors w_n + w_m, w_n - w_m of terms between two such blocks vanish *)
+Theorem discarded_at_zero_contributes_nothing (dp : Rdmpart) :
+  (forall w, In w (dp_weights R dp) -> 0 <= w) -> dp_retained R (Rtruncate 0 dp) = false ->
+  (forall w, In w (dp_weights R dp) -> w = 0) /\ (forall p, Rea_compute p dp = 0).
+Proof.
+  intros Hn E.
+  assert (Z : forall w, In w (dp_weights R dp) -> w = 0).
+  { intros w Hw. pose proof (proj1 (proj1 (truncate_flag 0 dp)) E w Hw). specialize (Hn w Hw). lra. }
+  split; [exact Z|]. intros p. rewrite Rea_compute_sum. apply lsum_zero. intros i _.
+  destruct (nth_in_or_default i (dp_weights R dp) 0) as [Hin|E0]; [rewrite (Z _ Hin)|rewrite E0]; ring.
+Qed.
+
+(** With eps = 0 nothing is discarded after DensityMatrix::compute (all weights are positive), so the density
+    matrix object is unchanged and every prepare function sees the same flags as without truncation. *)
+Theorem eps_zero_identity (beta : R) (H : list Rhpart) (D : list Rdmpart) :
+  Rdm_compute beta H = Done D -> Rdm_truncate 0 D = D.
+Proof.
+  intros E. unfold Rdm_truncate, dm_truncate. rewrite <- (map_id D) at 2. apply map_ext_in. intros dp Hdp.
+  assert (R1 : dp_retained R dp = true).
+  { destruct (dm_compute_Done_inv beta H D E) as [g [_ ->]]. apply in_map_iff in Hdp. destruct Hdp as [hp [<- _]]. reflexivity. }
+  assert (R2 : dp_retained R (Rtruncate 0 dp) = true).
+  { apply truncate_zero_keeps_positive. pose proof (weights_nonempty beta H D E dp Hdp) as Hne.
+    destruct (dp_weights R dp) as [|w ws] eqn:Ew; [contradiction|]. exists w. split; [left; reflexivity|].
+    apply (weights_all_pos beta H D E dp w Hdp). rewrite Ew. left. reflexivity. }
+  fold (Rtruncate 0 dp). destruct dp as [ws z r]. unfold Rtruncate, truncate in *. cbn [dp_weights dp_zpart dp_retained] in *.
+  rewrite R2, R1. reflexivity.
+Qed.
+
+(** ** The retained tests of the four prepare functions *)
+
+Lemma filter_app_single {A} (P : A -> bool) (l : list A) (x : A) :
+  filter P (l ++ [x]) = if P x then filter P l ++ [x] else filter P l.
+Proof. rewrite filter_app. cbn [filter]. destruct (P x); [reflexivity|apply app_nil_r]. Qed.
+
+Definition gf_part_kept (ret : nat -> bool) (p : nat * nat) : bool := ret (fst p) || ret (snd p).
+
+Lemma stripe_walk_filter (ret : nat -> bool) (fuel : nat) :
+  forall cl cxr acc, (length cl + length cxr <= fuel)%nat ->
+  exists all, stripe_walk fuel (fun _ => true) cl cxr acc = Done all /\
+              stripe_walk fuel ret cl cxr (filter (gf_part_kept ret) acc) = Done (filter (gf_part_kept ret) all).
+Proof.
+  induction fuel as [|fuel IH]; intros cl cxr acc Hf.
+  - destruct cl as [|[a b] cl]; [exists acc; split; reflexivity|]. destruct cxr as [|[c d] cxr]; [exists acc; split; reflexivity|].
+    cbn [length] in Hf. lia.
+  - destruct cl as [|[Cl Cr] cl]; [exists acc; split; reflexivity|]. destruct cxr as [|[Xr Xl] cxr]; [exists acc; split; reflexivity|].
+    cbn [stripe_walk]. cbn [length] in Hf.
+    set (cl2 := if Nat.leb Cl Xr then cl else (Cl, Cr) :: cl).
+    set (cxr2 := if Nat.leb Xr Cl then cxr else (Xr, Xl) :: cxr).
+    assert (Hf2 : (length cl2 + length cxr2 <= fuel)%nat).
+    { unfold cl2, cxr2. destruct (Nat.leb Cl Xr) eqn:E1; destruct (Nat.leb Xr Cl) eqn:E2; cbn [length]; try lia.
+      apply Nat.leb_gt in E1. apply Nat.leb_gt in E2. lia. }
+    destruct (Nat.eqb Cl Xr && Nat.eqb Cr Xl) eqn:Em.
+    + cbn [orb]. destruct (IH cl2 cxr2 (acc ++ [(Cl, Cr)]) Hf2) as [all [Ea Et]]. exists all. split; [exact Ea|].
+      rewrite filter_app_single in Et. unfold gf_part_kept at 1 in Et. cbn [fst snd] in Et.
+      destruct (ret Cl || ret Cr); exact Et.
+    + apply IH. exact Hf2.
+Qed.
+
+(** GreensFunction::prepare / Susceptibility::prepare: the walk terminates within its fuel, and the parts created
+    under truncation are exactly the untruncated parts with a retained block at either end: a part is skipped
+    only if BOTH its blocks are discarded. *)
+Theorem gf_parts_skipped_only_if_all_discarded (ret : nat -> bool) (cl cxr : list (nat * nat)) :
+  exists all, gf_prepare (fun _ => true) cl cxr = Done all /\
+              gf_prepare ret cl cxr = Done (filter (gf_part_kept ret) all).
+Proof. unfold gf_prepare. apply (stripe_walk_filter ret _ cl cxr []). lia. Qed.
+
+Theorem susc_parts_skipped_only_if_all_discarded (ret : nat -> bool) (al br : list (nat * nat)) :
+  exists all, susc_prepare (fun _ => true) al br = Done all /\
+              susc_prepare ret al br = Done (filter (gf_part_kept ret) all).
+Proof. apply gf_parts_skipped_only_if_all_discarded. Qed.
+
+Definition tpgf_part_kept (ret : nat -> bool) (part : tpgf_part) : bool :=
+  let '(_, (L0, L1, L2, L3)) := part in ret L0 || ret L1 || ret L2 || ret L3.
+
+Lemma filter_flat_map {A B} (P : B -> bool) (f : A -> list B) (l : list A) :
+  filter P (flat_map f l) = flat_map (fun a => filter P (f a)) l.
+Proof. induction l as [|a t IH]; [reflexivity|]. cbn [flat_map]. rewrite filter_app, IH. reflexivity. Qed.
+
+(** TwoParticleGF::prepare: a part is skipped only if all four blocks of its stripe are discarded *)
+Theorem tpgf_parts_skipped_only_if_all_discarded (ret : nat -> bool) (ops : list bimap) (cx4r : list (nat * nat)) :
+  tpgf_prepare ret ops cx4r = filter (tpgf_part_kept ret) (tpgf_prepare (fun _ => true) ops cx4r).
+Proof.
+  unfold tpgf_prepare. rewrite filter_flat_map. apply flat_map_ext. intros o.
+  rewrite filter_flat_map. apply flat_map_ext. intros pp. unfold tpgf_try.
+  destruct (get_left_index (op_at ops (snd pp) 2) (snd o)) as [L2|]; [|reflexivity].
+  destruct (get_right_index (op_at ops (snd pp) 0) (fst o)) as [L1|]; [|reflexivity].
+  destruct (get_right_index (op_at ops (snd pp) 1) L1) as [r|]; [|reflexivity].
+  destruct (Nat.eqb r L2); [|reflexivity]. cbn [orb filter tpgf_part_kept].
+  destruct (ret (fst o) || ret L1 || ret L2 || ret (snd o)); reflexivity.
+Qed.
+
+(** EnsembleAverage::prepare: closed form = sum over the diagonal parts whose block is retained ([ea_prepare_sum]);
+    a diagonal part is skipped only if its block is discarded. *)
+Theorem ea_parts_skipped_only_if_discarded (A : fieldop R) (D : list Rdmpart) :
+  NoDup (map (op_left R) A) ->
+  (forall p, In p A -> op_left R p = op_right R p -> (op_left R p < length D)%nat) ->
+  Rea_prepare A D =
+  Done (lsum (fun p => if Nat.eqb (op_left R p) (op_right R p) && Ris_retained D (op_left R p)
+                       then Rea_compute p (nth (op_left R p) D dummy_dp) else 0) A).
+Proof. intros ND Hb. apply (ea_prepare_sum A D ND Hb). Qed.
+
+(** ** Linear-in-eps bounds *)
+
+(** *** Ensemble average: |<A>_trunc - <A>| <= eps * dim * max|A_nn| *)
+Theorem ea_truncation_bound (A : fieldop R) (D : list Rdmpart) (eps maxA dim : R) :
+  NoDup (map (op_left R) A) ->
+  (forall p, In p A -> op_left R p = op_right R p -> (op_left R p < length D)%nat) ->
+  0 <= eps -> 0 <= maxA ->
+  (* weights_nonneg *) (forall dp w, In dp D -> In w (dp_weights R dp) -> 0 <= w) ->
+  (* untruncated *) (forall b, (b < length D)%nat -> Ris_retained D b = true) ->
+  (* elements_bounded *)
+  (forall p i, In p A -> op_left R p = op_right R p -> (i < length (op_mat R p))%nat ->
+     Rabs (coeff R 0 (op_mat R p) i i) <= maxA) ->
+  (* diagonal_sizes: the diagonal parts together have at most dim rows *)
+  lsum (fun p => if Nat.eqb (op_left R p) (op_right R p) then INR (length (op_mat R p)) else 0) A <= dim ->
+  exists v vt, Rea_prepare A D = Done v /\ Rea_prepare A (Rdm_truncate eps D) = Done vt /\
+               Rabs (vt - v) <= eps * dim * maxA.
+Proof.
+  intros ND Hb He Hm Hw Hret Hel Hdim.
+  exists (lsum (ea_term D) A), (lsum (ea_term (Rdm_truncate eps D)) A).
+  split; [apply ea_prepare_sum; assumption|]. split.
+  { apply ea_prepare_sum; [exact ND|]. intros p Hp Ed. unfold Rdm_truncate, dm_truncate. rewrite map_length. apply Hb; assumption. }
+  rewrite <- (Rplus_0_r (lsum (ea_term (Rdm_truncate eps D)) A - lsum (ea_term D) A)).
+  replace (lsum (ea_term (Rdm_truncate eps D)) A - lsum (ea_term D) A + 0)
+    with (lsum (fun p => ea_term (Rdm_truncate eps D) p - ea_term D p) A).
+  2:{ rewrite (lsum_ext _ (fun p => ea_term (Rdm_truncate eps D) p + -1 * ea_term D p)) by (intros; ring).
+      rewrite lsum_plus, lsum_scal. ring. }
+  eapply Rle_trans; [apply Rabs_lsum_le|].
+  eapply Rle_trans.
+  - apply (lsum_le _ (fun p => (if Nat.eqb (op_left R p) (op_right R p) then INR (length (op_mat R p)) else 0) * (maxA * eps))).
+    intros p Hp. unfold ea_term. destruct (Nat.eqb (op_left R p) (op_right R p)) eqn:Ed; cbn [andb].
+    2:{ rewrite Rminus_0_r, Rabs_R0. lra. }
+    assert (Edd : op_left R p = op_right R p) by (apply Nat.eqb_eq; exact Ed).
+    pose proof (Hb p Hp Edd) as Lb. rewrite (Hret _ Lb).
+    assert (Wn : dp_weights R (nth (op_left R p) (Rdm_truncate eps D) dummy_dp) = dp_weights R (nth (op_left R p) D dummy_dp)).
+    { unfold Rdm_truncate, dm_truncate.
+      rewrite (nth_indep _ dummy_dp (truncate R Rltb eps dummy_dp)) by (rewrite map_length; exact Lb).
+      rewrite (map_nth (truncate R Rltb eps)). reflexivity. }
+    assert (Cn : Rea_compute p (nth (op_left R p) (Rdm_truncate eps D) dummy_dp) = Rea_compute p (nth (op_left R p) D dummy_dp)).
+    { rewrite !Rea_compute_sum, Wn. reflexivity. }
+    destruct (Ris_retained (Rdm_truncate eps D) (op_left R p)) eqn:Er.
+    + rewrite Cn, Rminus_diag_eq, Rabs_R0 by reflexivity.
+      apply Rmult_le_pos; [apply pos_INR|apply Rmult_le_pos; assumption].
+    + rewrite Rminus_0_l, Rabs_Ropp, Rea_compute_sum.
+      eapply Rle_trans; [apply Rabs_lsum_le|].
+      eapply Rle_trans; [apply (lsum_le _ (fun _ => maxA * eps))|rewrite lsum_const, List.seq_length; lra].
+      intros i Hi. apply in_seq in Hi. rewrite Rabs_mult.
+      assert (W : 0 <= nth i (dp_weights R (nth (op_left R p) D dummy_dp)) 0 <= eps).
+      { destruct (nth_in_or_default i (dp_weights R (nth (op_left R p) D dummy_dp)) 0) as [Hin|E0]; [|rewrite E0; lra].
+        split; [apply (Hw (nth (op_left R p) D dummy_dp)); [apply nth_In; exact Lb|exact Hin]|].
+        apply (discarded_weights_small eps D (op_left R p) Lb Er). exact Hin. }
+      rewrite (Rabs_pos_eq (nth i _ 0)) by lra.
+      apply Rmult_le_compat; try lra; [apply Rabs_pos|]. apply Hel; try assumption. lia.
+  - rewrite lsum_scal_r. replace (eps * dim * maxA) with (dim * (maxA * eps)) by ring.
+    apply Rmult_le_compat_r; [apply Rmult_le_pos; assumption|exact Hdim].
+Qed.
+
+(** *** Single-particle Green's function *)
+
+(** Lehmann data of one term of G: the two matrix elements <n|c_i|m>, <m|c^+_j|n>, the weights w_n, w_m, the
+    pole E_m - E_n (GreensFunctionPart.cpp:44-70). *)
+Record lterm := mk_lterm { lt_c : C; lt_cx : C; lt_wn : R; lt_wm : R; lt_pole : R }.
+Definition lterm_val (z : C) (t : lterm) : C :=
+  Cdiv (Cmult (Cmult (lt_c t) (lt_cx t)) (RtoC (lt_wn t + lt_wm t))) (Cminus z (RtoC (lt_pole t))).
+(** one part = one pair of blocks (outer = Cleft, inner = Cright); terms grouped by the outer state n.
+    Any sub-list of the terms may be present (the library drops residues below 1e-8 in both runs alike). *)
+Record gfpart := mk_gfpart { gp_outer : nat; gp_inner : nat; gp_rows : list (list lterm) }.
+Fixpoint csum {A : Type} (f : A -> C) (l : list A) : C :=
+  match l with [] => RtoC 0 | a :: t => Cplus (f a) (csum f t) end.
+Definition gfpart_val (z : C) (p : gfpart) : C := csum (fun row => csum (lterm_val z) row) (gp_rows p).
+Definition gf_val (z : C) (parts : list gfpart) : C := csum (gfpart_val z) parts.
+Definition gfpart_kept (ret : nat -> bool) (p : gfpart) : bool := ret (gp_outer p) || ret (gp_inner p).
+
+Lemma Cmod_csum_le {A} (f : A -> C) (l : list A) : Cmod (csum f l) <= lsum (fun a => Cmod (f a)) l.
+Proof.
+  induction l as [|a t IH]; cbn [csum lsum]; [rewrite Cmod_0; lra|].
+  eapply Rle_trans; [apply Cmod_triangle|]. lra.
+Qed.
+
+Lemma csum_filter_diff {A} (f : A -> C) (P : A -> bool) (l : list A) :
+  Cminus (csum f (filter P l)) (csum f l) = csum (fun a => if P a then RtoC 0 else Copp (f a)) l.
+Proof.
+  induction l as [|a t IH]; cbn [filter csum]; [ring|].
+  destruct (P a); cbn [csum]; rewrite <- IH; ring.
+Qed.
+
+Lemma Cmod_z_minus_real (z : C) (p : R) : Rabs (snd z) <= Cmod (Cminus z (RtoC p)).
+Proof.
+  eapply Rle_trans; [|apply Rmax_Cmod]. destruct z as [x y]. cbn [fst snd Cminus Cplus Copp RtoC].
+  rewrite Ropp_0, Rplus_0_r. apply Rmax_r.
+Qed.
+
+(** a dropped Lehmann term: both weights in [0, eps] *)
+Lemma lterm_val_bound (z : C) (t : lterm) (eps : R) :
+  snd z <> 0 -> 0 <= lt_wn t <= eps -> 0 <= lt_wm t <= eps ->
+  Cmod (lterm_val z t) <= Cmod (lt_c t) * Cmod (lt_cx t) * (2 * eps / Rabs (snd z)).
+Proof.
+  intros Hz Hn Hm. unfold lterm_val.
+  assert (Pz : 0 < Rabs (snd z)) by (apply Rabs_pos_lt; exact Hz).
+  pose proof (Cmod_z_minus_real z (lt_pole t)) as Hd.
+  assert (Nz : Cminus z (RtoC (lt_pole t)) <> RtoC 0).
+  { intros E. rewrite E, Cmod_0 in Hd. lra. }
+  rewrite Cmod_div by exact Nz. rewrite !Cmod_mult, Cmod_R, Rabs_pos_eq by lra.
+  pose proof (Cmod_ge_0 (lt_c t)). pose proof (Cmod_ge_0 (lt_cx t)).
+  assert (Q : (lt_wn t + lt_wm t) * / Cmod (Cminus z (RtoC (lt_pole t))) <= 2 * eps * / Rabs (snd z)).
+  { apply Rmult_le_compat; [lra|left; apply Rinv_0_lt_compat; lra|lra|apply Rinv_le_contravar; lra]. }
+  unfold Rdiv.
+  replace (Cmod (lt_c t) * Cmod (lt_cx t) * (lt_wn t + lt_wm t) * / Cmod (Cminus z (RtoC (lt_pole t))))
+    with (Cmod (lt_c t) * Cmod (lt_cx t) * ((lt_wn t + lt_wm t) * / Cmod (Cminus z (RtoC (lt_pole t))))) by ring.
+  apply Rmult_le_compat_l; [apply Rmult_le_pos; assumption|exact Q].
+Qed.
+
+(** Sum_m |c_nm| |cx_mn| <= 1 from the two row norms (ab <= (a^2+b^2)/2; Cauchy-Schwarz would give the same) *)
+Lemma row_product_le_one (row : list lterm) :
+  lsum (fun t => Cmod (lt_c t) * Cmod (lt_c t)) row <= 1 ->
+  lsum (fun t => Cmod (lt_cx t) * Cmod (lt_cx t)) row <= 1 ->
+  lsum (fun t => Cmod (lt_c t) * Cmod (lt_cx t)) row <= 1.
+Proof.
+  intros H1 H2.
+  assert (lsum (fun t => Cmod (lt_c t) * Cmod (lt_cx t)) row <=
+          lsum (fun t => / 2 * (Cmod (lt_c t) * Cmod (lt_c t)) + / 2 * (Cmod (lt_cx t) * Cmod (lt_cx t))) row).
+  { apply lsum_le. intros t _. pose proof (Rle_0_sqr (Cmod (lt_c t) - Cmod (lt_cx t))) as S. unfold Rsqr in S. lra. }
+  rewrite lsum_plus, !lsum_scal in H. lra.
+Qed.
+
+(** |G_trunc(z) - G(z)| <= 2 eps dim / |Im z| off the real axis.
+    Hypotheses (named):
+    - [dropped_weights_small]: in a part with both blocks discarded every term has both weights in [0, eps]
+      (discharged from the density-matrix model by [gf_truncation_bound_dm] below);
+    - [row_norm_c], [row_norm_cx]: for every outer state n, Sum_m |<n|c_i|m>|^2 <= 1 and Sum_m |<m|c^+_j|n>|^2 <= 1
+      (rows / columns of the matrices of c_i, c^+_j, whose operator norm is 1);
+    - [outer_sizes]: the outer blocks of the parts are distinct blocks, so together they have at most dim states. *)
+Theorem gf_truncation_bound (parts : list gfpart) (ret : nat -> bool) (eps dim : R) (z : C) :
+  0 <= eps -> snd z <> 0 ->
+  (* dropped_weights_small *)
+  (forall p row t, In p parts -> gfpart_kept ret p = false -> In row (gp_rows p) -> In t row ->
+     0 <= lt_wn t <= eps /\ 0 <= lt_wm t <= eps) ->
+  (* row_norm_c *)
+  (forall p row, In p parts -> In row (gp_rows p) -> lsum (fun t => Cmod (lt_c t) * Cmod (lt_c t)) row <= 1) ->
+  (* row_norm_cx *)
+  (forall p row, In p parts -> In row (gp_rows p) -> lsum (fun t => Cmod (lt_cx t) * Cmod (lt_cx t)) row <= 1) ->
+  (* outer_sizes *)
+  lsum (fun p => INR (length (gp_rows p))) parts <= dim ->
+  Cmod (Cminus (gf_val z (filter (gfpart_kept ret) parts)) (gf_val z parts)) <= 2 * eps * dim / Rabs (snd z).
+Proof.
+  intros He Hz Hw Hc Hcx Hdim. unfold gf_val. rewrite csum_filter_diff.
+  assert (Pz : 0 < Rabs (snd z)) by (apply Rabs_pos_lt; exact Hz).
+  set (k := 2 * eps / Rabs (snd z)).
+  assert (Hk : 0 <= k). { unfold k. apply Rmult_le_pos; [lra|]. left. apply Rinv_0_lt_compat. exact Pz. }
+  eapply Rle_trans; [apply Cmod_csum_le|].
+  eapply Rle_trans.
+  - apply (lsum_le _ (fun p => INR (length (gp_rows p)) * k)). intros p Hp.
+    destruct (gfpart_kept ret p) eqn:Ek.
+    + rewrite Cmod_0. apply Rmult_le_pos; [apply pos_INR|exact Hk].
+    + rewrite Cmod_opp. unfold gfpart_val. eapply Rle_trans; [apply Cmod_csum_le|].
+      eapply Rle_trans; [apply (lsum_le _ (fun _ => k))|rewrite lsum_const; lra].
+      intros row Hrow. eapply Rle_trans; [apply Cmod_csum_le|].
+      eapply Rle_trans.
+      * apply (lsum_le _ (fun t => Cmod (lt_c t) * Cmod (lt_cx t) * k)). intros t Ht.
+        destruct (Hw p row t Hp Ek Hrow Ht) as [W1 W2]. apply lterm_val_bound; assumption.
+      * rewrite lsum_scal_r. rewrite <- (Rmult_1_l k) at 2. apply Rmult_le_compat_r; [exact Hk|].
+        apply row_product_le_one; [apply (Hc p row Hp Hrow)|apply (Hcx p row Hp Hrow)].
+  - rewrite lsum_scal_r. unfold k. replace (2 * eps * dim / Rabs (snd z)) with (dim * (2 * eps / Rabs (snd z))) by (field; lra).
+    apply Rmult_le_compat_r; [exact Hk|exact Hdim].
+Qed.
+
+(** the weight hypothesis discharged from the density-matrix model: D computed by DensityMatrix::compute,
+    truncated at eps, term weights taken from the parts of the outer / inner block *)
+Theorem gf_truncation_bound_dm (beta : R) (H : list Rhpart) (D : list Rdmpart)
+        (parts : list gfpart) (eps dim : R) (z : C) :
+  Rdm_compute beta H = Done D -> 0 <= eps -> snd z <> 0 ->
+  (* terms_use_dm_weights *)
+  (forall p row t, In p parts -> In row (gp_rows p) -> In t row ->
+     (gp_outer p < length D)%nat /\ (gp_inner p < length D)%nat /\
+     In (lt_wn t) (dp_weights R (nth (gp_outer p) D dummy_dp)) /\
+     In (lt_wm t) (dp_weights R (nth (gp_inner p) D dummy_dp))) ->
+  (forall p row, In p parts -> In row (gp_rows p) -> lsum (fun t => Cmod (lt_c t) * Cmod (lt_c t)) row <= 1) ->
+  (forall p row, In p parts -> In row (gp_rows p) -> lsum (fun t => Cmod (lt_cx t) * Cmod (lt_cx t)) row <= 1) ->
+  lsum (fun p => INR (length (gp_rows p))) parts <= dim ->
+  Cmod (Cminus (gf_val z (filter (gfpart_kept (Ris_retained (Rdm_truncate eps D))) parts)) (gf_val z parts))
+    <= 2 * eps * dim / Rabs (snd z).
+Proof.
+  intros E He Hz Hw Hc Hcx Hdim. apply gf_truncation_bound; try assumption.
+  intros p row t Hp Ek Hrow Ht. destruct (Hw p row t Hp Hrow Ht) as [Lo [Li [Wn Wm]]].
+  unfold gfpart_kept in Ek. apply orb_false_elim in Ek. destruct Ek as [Eo Ei].
+  split; split.
+  - left. apply (weights_all_pos beta H D E (nth (gp_outer p) D dummy_dp)); [apply nth_In; exact Lo|exact Wn].
+  - apply (discarded_weights_small eps D (gp_outer p) Lo Eo). exact Wn.
+  - left. apply (weights_all_pos beta H D E (nth (gp_inner p) D dummy_dp)); [apply nth_In; exact Li|exact Wm].
+  - apply (discarded_weights_small eps D (gp_inner p) Li Ei). exact Wm.
+Qed.
